@@ -241,7 +241,12 @@ func (vm *VM) FindElementWithModule(name *IDName) (Element, *Module, error) {
 	if moduleID >= 0 {
 		extModuleID = moduleID
 	}
-	return elem, vm.moduleGraph.GetModuleByID(extModuleID), nil
+	module := vm.moduleGraph.GetModuleByID(extModuleID)
+	if module == nil {
+		// no module at all (input-variable text): the value lives in the native one
+		module = NativeCodeModule
+	}
+	return elem, module, nil
 }
 
 // DeclareElement
